@@ -290,7 +290,7 @@ func c04NoNilMatcherStoredFor(c *Ctx, pkg, rule string, ctors map[string]bool) {
 			callee := call.Common().StaticCallee()
 			canNil := false
 			for _, in := range instrsWhere(callee, isReturn) {
-				if r := in.(*ssa.Return); len(r.Results) > 0 && isNilConst(r.Results[0]) {
+				if r := in.(*ssa.Return); len(r.Results) > 0 && isNilConst(unspill(r, 0)) {
 					canNil = true
 				}
 			}
@@ -369,8 +369,8 @@ func c06TotalIn64BitsAndDrawGuarded(c *Ctx) {
 				}
 			}
 			walk(unspill(ret, 1))
-			if !is64BitInt(ret.Results[1].Type()) {
-				bad = "the total is returned as " + ret.Results[1].Type().String()
+			if !is64BitInt(unspill(ret, 1).Type()) {
+				bad = "the total is returned as " + unspill(ret, 1).Type().String()
 			}
 			c.Check(rule, funcKey(fn)+":total-summed-in-64-bits", ret.Pos(), bad == "", "the sum of the uint32 weights is formed in 64 bits",
 				bad+": the sum of uint32 weights wraps (two clusters of weight 2^31 give total 0), the draw range no longer covers the weights and clusters are starved or the draw panics")
